@@ -144,6 +144,8 @@ struct World {
     std::map<std::string, Operator> algebra;                              // C05 registers
     bool repeat;                                                          // call prepare()/compute() a second time on every object (idempotence)
     std::vector<MatrixType> saved_blocks;                                 // hsave / hcheck
+    bool symm_used = false;
+    bool early = false; double early_beta = 1.0;                           // construct the whole object chain before the first prepare()/compute()
     bool have_tol2 = false; double tol2[3] = {1e-8, 1e-16, 1e-5};           // user-set precision knobs of two-particle objects (public members)
     World() : repeat(false) {}
 
@@ -446,8 +448,17 @@ static std::string exec_line(World*& W, long lineno, const std::string& line) {
         IndexClassification::IndexInfo info = W->ic().getInfo(i);
         J.kvs("label", info.SiteLabel); J.kvi("orb", info.Orbital); J.kvi("spin", info.Spin); return J.done();
     }
+    if (cmd == "early") { W->early = true; W->early_beta = t.d(); J.kvi("ok", 1); return J.done(); }
     if (cmd == "storage") {
         W->Storage.reset(new IndexHamiltonian(&W->lat(), W->ic()));
+        if (W->early) {
+            // all objects of the chain are created up front (they hold references to each other); the prepare()/compute() calls follow
+            // in the usual order through the later commands, which then reuse these objects
+            W->Symm.reset(new Symmetrizer(W->ic(), *W->Storage));
+            W->S.reset(new StatesClassification(W->ic(), *W->Symm));
+            W->H.reset(new Hamiltonian(W->ic(), *W->Storage, *W->S));
+            W->rho.reset(new DensityMatrix(*W->S, *W->H, W->early_beta));
+        }
         W->Storage->prepare();
         J.kvraw("op", joperator(*W->Storage)); return J.done();
     }
@@ -472,7 +483,9 @@ static std::string exec_line(World*& W, long lineno, const std::string& line) {
     }
     if (cmd == "symm") {
         std::string mode = t.word();
-        W->Symm.reset(new Symmetrizer(W->ic(), W->st()));
+        if (W->early && W->symm_used) W->early = false;      // a second analysis in the same world: back to construct-on-demand
+        if (!W->early) W->Symm.reset(new Symmetrizer(W->ic(), W->st()));
+        W->symm_used = true;
         if (mode == "default") W->Symm->compute(false);
         else if (mode == "ignore") W->Symm->compute(true);
         else if (mode == "custom") W->Symm->compute(W->symmops);
@@ -484,7 +497,7 @@ static std::string exec_line(World*& W, long lineno, const std::string& line) {
         return J.done();
     }
     if (cmd == "states") {
-        W->S.reset(new StatesClassification(W->ic(), W->sy()));
+        if (!W->early) W->S.reset(new StatesClassification(W->ic(), W->sy()));
         W->S->compute();
         if (W->repeat) W->S->compute();
         J.kvi("nblocks", int(W->S->NumberOfBlocks())); J.kvi("nstates", W->S->getNumberOfStates()); return J.done();
@@ -512,7 +525,7 @@ static std::string exec_line(World*& W, long lineno, const std::string& line) {
         return J.done();
     }
     if (cmd == "ham") {
-        W->H.reset(new Hamiltonian(W->ic(), W->st(), W->s()));
+        if (!W->early) W->H.reset(new Hamiltonian(W->ic(), W->st(), W->s()));
         J.kvi("ok", 1); return J.done();
     }
     if (cmd == "tol2") {   // tol2 <ReduceResonanceTolerance> <CoefficientTolerance> <MultiTermCoefficientTolerance>: applied to every later chi / c4 object
@@ -586,7 +599,7 @@ static std::string exec_line(World*& W, long lineno, const std::string& line) {
     }
     if (cmd == "rho") {
         double beta = t.d();
-        W->rho.reset(new DensityMatrix(W->s(), W->h(), beta));
+        if (!(W->early && W->rho && beta == W->early_beta)) W->rho.reset(new DensityMatrix(W->s(), W->h(), beta));
         W->rho->prepare(); W->rho->compute();
         if (W->repeat) { W->rho->prepare(); W->rho->compute(); }
         J.kvi("ok", 1); return J.done();
@@ -967,6 +980,25 @@ static std::string exec_line(World*& W, long lineno, const std::string& line) {
                 }
             }
             J.kvraw("m", o + "]"); return J.done();
+        }
+        if (sub == "act") {      // alg act <reg> <M> <k> ket...: the operator applied to single Fock states of M modes (M up to 62)
+            std::string a = t.word(); long M = t.l(); long k = t.l();
+            const Operator& A = W->algebra[a];
+            std::string o = "[";
+            for (long q = 0; q < k; q++) {
+                unsigned long ket = strtoul(t.word().c_str(), 0, 10);
+                std::map<FockState, MelemType> r = A.actRight(FockState(M, ket));
+                if (q) o += ",";
+                o += "[";
+                bool first = true;
+                for (std::map<FockState, MelemType>::iterator it = r.begin(); it != r.end(); ++it) {
+                    if (!first) o += ","; first = false;
+                    MelemType me = A.getMatrixElement(it->first, FockState(M, ket));
+                    o += "[\"" + std::to_string(it->first.to_ulong()) + "\"," + JOut::cnum(it->second) + "," + JOut::cnum(me) + "]";
+                }
+                o += "]";
+            }
+            J.kvraw("r", o + "]"); return J.done();
         }
         if (sub == "nop" || sub == "szop") {
             // specialised N / Sz: compare actRight + getMatrixElement with the generic polynomial
